@@ -14,7 +14,7 @@ ASSUMPTIONS = [
 ]
 
 IDS = list(range(1, 13))
-BAD_IDS = [0, -1, 13, 14, 100, 2147483647, -2147483648]
+BAD_IDS = [0, -1, 13, 14, 100, 2147483647, -2147483648, 257, 265, -251, 65546, 256, 261, 4101, -255, 2 ** 16 + 9, 2 ** 24 + 1]
 # instructions a record may contain in the few-step streams: all modelled, none allocating / random / spawning
 SAFE_INSTR = ["NOOP", "INTEGER.+", "INTEGER.DUP", "INTEGER.SWAP", "BOOLEAN.NOT", "BOOLEAN.AND", "FLOAT.+", "CODE.DUP",
               "EXEC.DUP", "NAME.DUP", "LIST.ADD", "LIST.GET", "LIST.IVAL", "INTEGER.POP"]
